@@ -331,6 +331,12 @@ func c18Case(c *Ctx) {
 					}
 					d := descChar(w.sepRec)
 					w.SepRec = &d
+					if c.R.Chance(1, 3) { // both separator fields set: the function wins, the character is idle configuration
+						w.SepChar = c.R.ShuffleStrings(canaryChars)[0]
+					}
+					if c.R.Chance(1, 8) { // hundreds of tokens: an index of more than 255 bytes
+						w.Length = c.R.Range(128, 300)
+					}
 				} else {
 					w = WLCase{Length: c.R.Range(3, 6), Scheme: schemes[c.R.Intn(5)], SepKind: "preset", Preset: presetNames[c.R.Intn(len(presetNames))]}
 					w.Words = spg.AgileSyllables
